@@ -836,6 +836,20 @@ def pinned_cases(base, linebuf):
     add("empty:file-name-empty:after-word", base_disk, [("w", "w1"), ("f", "")], ["w1,^"], stream="broken")
     add("empty:xfile-name-empty", base_disk, [("w", "w1"), ("x", "")], ["w1", ("x", "^")], stream="broken")
     add("empty:file-name-empty:wcoll-set", base_disk, [("f", "")], ["^"], env="t/W", stream="broken")
+    # ---- stdin named more than once, in every position (Props/C10 `later_stdin_sources_are_empty_files`: every later
+    # one is an empty file); with an exclusion read from stdin: model correspondence only (stream `malformed`)
+    S2 = "s1\n#include t/B\ns2 # c\n"
+    for tag, srcs, wargs, env, stream in (
+            ("w-w1-w", [("s",), ("w", "w1"), ("s",)], ["-", "w1", "-"], None, "plain"),
+            ("joined", [("s",), ("w", "w1"), ("s",)], ["^-,w1,^-"], None, "plain"),
+            ("thrice", [("s",), ("s",), ("s",)], ["-", "^-", "-"], "t/W", "plain"),
+            ("word-first", [("w", "w1"), ("s",), ("f", "t/A"), ("s",)], ["w1", "-", "^t/A,^-"], None, "plain"),
+            ("then-wcoll-dash", [("s",)], ["-"], "-", "plain"),
+            ("x-then-w", [], [("x", "^-"), "-"], None, "malformed"),
+            ("w-then-x", [], ["-", ("x", "^-")], None, "malformed"),
+            ("x-then-wcoll-dash", [], [("x", "^-")], "-", "malformed"),
+            ("dash-caret-dash-joined", [], ["^-,w1,-^-"], None, "malformed")):
+        add("stdin-twice:%s" % tag, base_disk, srcs, wargs, stdin=S2, env=env, stream=stream)
     # ---- J. include names around the reader's path buffer (fq_path[PATHBUF], PATHBUF = PATH_MAX): explicit names
     # (`./`, absolute) of PATHBUF-2, PATHBUF-1 bytes exist and are read; a name of PATHBUF bytes or more CANNOT exist —
     # an error, although a file sits at the name cut to PATHBUF-1 bytes (F10-LONGNAME); bare names are looked up as
